@@ -111,9 +111,8 @@ Proof.
   apply andb_true_iff in Hwf. destruct Hwf as [_ Hroot].
   rewrite (merge_layer_rel descs d root data _ Hfd Hpaths Hnames Hroot).
   assert (Hp : parent_of descs (dd_id d) = dd_parent d). { unfold parent_of. rewrite Hfd. reflexivity. }
-  apply (seek_merge descs d Hp X H1 H2 H3 root [] None data [] Hscope Hnames).
-  - intros e [].
-  - discriminate.
+  apply (seek_merge descs d Hp X H1 H2 H3 root [] data [] Hscope Hnames).
+  intros e [].
 Qed.
 Print Assumptions reconstruct_layer.
 
@@ -134,45 +133,86 @@ Example reconstruct_nonvacuous :
   = Some (JObj [([97], JStr [120]); ([98], JObj [([99], JStr [121])])]).
 Proof. vm_compute. split; reflexivity. Qed.
 
-(* ---- what the renderer gets wrong (witnesses replayed on the Go code, see KNOWN_FINDINGS) ---- *)
+(* ---- error reporting and cancellation (after the repairs c10_fix_*; the former witnesses
+   errors_reported_refuted / null_data_pending_refuted are kept below as regressions) ---- *)
 
-(* A deferred fragment whose null bubbles through its own (nullable) anchor is completed with an
-   empty incremental list and without errors: the error collected by the pre-walk is dropped and
-   the client keeps the object the initial frame delivered.
-   { a { ... @defer { x } } }  x: String!, data {"a":{"x":null}} *)
+(* A batch that delivers no item although errors were collected has no incremental list at all
+   and carries the errors on its completed entry: errors are never dropped with "incremental":[]. *)
+Theorem errors_reported : forall descs root data d o f data' live o',
+  render_batch descs root data d o = (f, data', live, o') ->
+  f_incr (fr_sum f) = [] -> batch_errors descs root data d <> [] ->
+  jget k_incremental (fr_json f) = None /\
+  jget k_completed (fr_json f) =
+    Some (JArr [JObj [(k_id, JStr (dec_of_N (dd_id d))); (k_errors, errs_json (batch_errors descs root data d))]]).
+Proof.
+  intros descs root data d o f data' live o'. unfold render_batch, batch_errors.
+  destruct (dwalk descs (Some d) root data [] [] false false (wst0 [])) as [[[data1 s1] rv1] st1].
+  destruct (ws_null st1).
+  - intros H Hi He. inversion H; subst; clear H. simpl.
+    destruct (ws_errs st1); [contradiction |]. split; reflexivity.
+  - destruct (dwalk descs (Some d) root data1 [] [] true false (wst0 (ws_errs st1))) as [[[d2 s2] rv2] st2].
+    simpl. intros H Hi He.
+    destruct (ws_items st2) as [| it its] eqn:Eit; destruct (ws_errs st2) as [| e es] eqn:Ee; try contradiction;
+      simpl in H; inversion H; subst; clear H; simpl in *; try discriminate.
+    split; reflexivity.
+Qed.
+Print Assumptions errors_reported.
+
+(* A defer that fails (no incremental list: completed with errors) announces no nested defer. *)
+Theorem failed_defer_announces_nothing : forall descs root data d o f data' live o',
+  render_batch descs root data d o = (f, data', live, o') ->
+  jget k_incremental (fr_json f) = None -> live = [] /\ f_pending (fr_sum f) = [].
+Proof.
+  intros descs root data d o f data' live o' H Hn.
+  destruct (ProofsBasic.render_batch_sum _ _ _ _ _ _ _ _ _ H) as [S1 [_ [_ [_ [_ [_ S7]]]]]].
+  rewrite S1, (S7 Hn). split; reflexivity.
+Qed.
+Print Assumptions failed_defer_announces_nothing.
+
+(* When the initial pre-walk fails ("data":null) nothing is announced: the initial frame is the
+   whole, complete response. *)
+Theorem null_data_announces_nothing : forall descs root data f data' live,
+  render_initial descs root data = (f, data', live) ->
+  initial_failed descs root data = true ->
+  jget k_data (fr_json f) = Some JNull /\ live = [] /\ f_pending (fr_sum f) = [] /\ f_hasnext (fr_sum f) = false.
+Proof.
+  intros descs root data f data' live. unfold render_initial, initial_failed.
+  destruct (dwalk descs None root data [] [] false false (wst0 [])) as [[[data1 s1] rv1] st1].
+  destruct s1; intros H Hf; try discriminate; inversion H; subst; clear H; simpl;
+    (destruct (ws_errs st1); simpl; repeat split; reflexivity).
+Qed.
+Print Assumptions null_data_announces_nothing.
+
+(* regressions: the two former witnesses.
+   { a { ... @defer { x } } }  x: String!, data {"a":{"x":null}}: the null bubbles through the
+   anchor a; the error now arrives on the completed entry. *)
 Definition ex2_root : dnode :=
   DObj [] false [81] [] [DFld [97] None None None (DObj [[97]] true [65] [] [DFld [120] None None (Some 1) (DLeaf (NStr [[120]] false))])].
 Definition ex2_descs : list ddesc := [{| dd_id := 1; dd_parent := 0; dd_label := []; dd_path := [[97]] |}].
 Definition ex2_data : json := JObj [([97], JObj [([120], JNull)])].
 
-Theorem errors_reported_refuted :
+Example errors_reported_regression :
   defer_plan_wf ex2_descs ex2_root (Some (TSingle 1)) = true /\
-  (* the completion of the plan without @defer reports an error and nulls a *)
-  complete_root (fun _ _ => false) (erase ex2_root) ex2_data
-    = (Some (JObj [([97], JNull)]), [{| ge_kind := EK_NONNULL; ge_path := [PName [97]; PName [120]] |}]) /\
   match exec ex2_descs ex2_root (Some (TSingle 1)) ex2_data [AFetch 1; ARender 1] with
   | Some [f0; f1] =>
     (* {"data":{"a":{}},"pending":[{"id":"1","path":["a"]}],"hasNext":true} *)
     frame_bytes f0 = [123;34;100;97;116;97;34;58;123;34;97;34;58;123;125;125;44;34;112;101;110;100;105;110;103;34;58;91;123;34;105;100;34;58;34;49;34;44;34;112;97;116;104;34;58;91;34;97;34;93;125;93;44;34;104;97;115;78;101;120;116;34;58;116;114;117;101;125] /\
-    (* {"incremental":[],"completed":[{"id":"1"}],"hasNext":false} *)
-    frame_bytes f1 = [123;34;105;110;99;114;101;109;101;110;116;97;108;34;58;91;93;44;34;99;111;109;112;108;101;116;101;100;34;58;91;123;34;105;100;34;58;34;49;34;125;93;44;34;104;97;115;78;101;120;116;34;58;102;97;108;115;101;125]
+    (* {"completed":[{"id":"1","errors":[{"k":1,"path":["a","x"]}]}],"hasNext":false} *)
+    frame_bytes f1 = [123;34;99;111;109;112;108;101;116;101;100;34;58;91;123;34;105;100;34;58;34;49;34;44;34;101;114;114;111;114;115;34;58;91;123;34;107;34;58;49;44;34;112;97;116;104;34;58;91;34;97;34;44;34;120;34;93;125;93;125;93;44;34;104;97;115;78;101;120;116;34;58;102;97;108;115;101;125]
   | _ => False
   end.
 Proof. vm_compute. repeat split; reflexivity. Qed.
-Print Assumptions errors_reported_refuted.
 
-(* When a non-null violation of the primary part nulls the whole data, the initial frame still
-   announces the root-level defers: "data":null, pending id 1 at path [], hasNext:true.
-   { a  ... @defer { b } }  a: String!, data {"a":null,"b":"x"} *)
+(* { a ... @defer { b } }  a: String!, data {"a":null,"b":"x"}: data is null, nothing is announced. *)
 Definition ex3_root : dnode :=
   DObj [] false [81] [] [DFld [97] None None None (DLeaf (NStr [[97]] false));
                          DFld [98] None None (Some 1) (DLeaf (NStr [[98]] true))].
 Definition ex3_descs : list ddesc := [{| dd_id := 1; dd_parent := 0; dd_label := []; dd_path := [] |}].
 
-Theorem null_data_pending_refuted :
-  defer_plan_wf ex3_descs ex3_root (Some (TSingle 1)) = true /\
-  (* {"errors":[{"k":1,"path":["a"]}],"data":null,"pending":[{"id":"1","path":[]}],"hasNext":true} *)
-  let '(f0, _, _) := render_initial ex3_descs ex3_root (JObj [([97], JNull); ([98], JStr [120])]) in
-  frame_bytes f0 = [123;34;101;114;114;111;114;115;34;58;91;123;34;107;34;58;49;44;34;112;97;116;104;34;58;91;34;97;34;93;125;93;44;34;100;97;116;97;34;58;110;117;108;108;44;34;112;101;110;100;105;110;103;34;58;91;123;34;105;100;34;58;34;49;34;44;34;112;97;116;104;34;58;91;93;125;93;44;34;104;97;115;78;101;120;116;34;58;116;114;117;101;125].
-Proof. vm_compute. split; reflexivity. Qed.
-Print Assumptions null_data_pending_refuted.
+Example null_data_regression :
+  (* {"errors":[{"k":1,"path":["a"]}],"data":null,"hasNext":false} and no further frame *)
+  match exec ex3_descs ex3_root (Some (TSingle 1)) (JObj [([97], JNull); ([98], JStr [120])]) [] with
+  | Some [f0] => frame_bytes f0 = [123;34;101;114;114;111;114;115;34;58;91;123;34;107;34;58;49;44;34;112;97;116;104;34;58;91;34;97;34;93;125;93;44;34;100;97;116;97;34;58;110;117;108;108;44;34;104;97;115;78;101;120;116;34;58;102;97;108;115;101;125]
+  | _ => False
+  end.
+Proof. vm_compute. reflexivity. Qed.
